@@ -1,12 +1,12 @@
 """C19 — Update algorithms give the same timings (DESIGN.md 3, C19): stale heap entries are dropped, both variants pick the same next date."""
-from .. import ex, lib
+from .. import cfg, dims, ex, lib
 from ..core import where
 from ..ir import AnalysisBroken
 from .C16 import check_min_accumulator
 
 UNITS = ['src/kernel/resource/Action.cpp', 'src/kernel/resource/Model.cpp', 'src/kernel/resource/CpuImpl.cpp', 'src/kernel/resource/models/cpu_cas01.cpp',
          'src/kernel/resource/models/network_cm02.cpp', 'src/kernel/resource/models/cpu_ti.cpp', 'src/kernel/resource/NetworkModel.cpp',
-         'src/kernel/resource/DiskImpl.cpp', 'src/kernel/resource/models/disk_s19.cpp']
+         'src/kernel/resource/DiskImpl.cpp', 'src/kernel/resource/models/disk_s19.cpp', 'src/kernel/resource/models/ptask_L07.cpp']
 K = 'simgrid::kernel::resource::'
 L = 'simgrid::kernel::lmm::System::'
 EXPLANATION = ('R1: every Action mutator that changes what the completion date depends on (set_bound, set_max_duration, set_sharing_penalty, cancel, '
@@ -183,5 +183,91 @@ def run(ctx):
             ctx.check(changes and not badl, 'R4', 'CpuTiAction::%s accounts for the elapsed interval (update_remaining_amount(now)) before changing what that accounting reads' % nm, where(fs[0], badl[0] if badl else None),
                       'the change at line %s is made first: update_remaining_amount() then %s for the interval that has just elapsed' % (badl[0], 'skips this action or counts suspended time as work' if nm != 'set_sharing_penalty' else 'divides by the new penalty') if badl else '',
                       key='R4|CpuTiAction::%s|accounting before the state change' % nm)
+    run_units(ctx, P, A)
     ctx.assume('numerical agreement of the algorithms is not decided; for the trace-integration (TI) CPU only the accounting order of its action mutators is')
     return EXPLANATION
+
+
+def run_units(ctx, P, A):
+    """R5: dates, durations, work and rates are not mixed (P20 with an affine base: date - date = duration, date + duration = date)"""
+    ctx.rule('R5', 'units of the event computation of the resource models: remaining work in [work], rates in [work/second], max_duration/latency/delta in [second], '
+             'start/finish/last-update/heap dates and `now` in [date]; date - date = duration, date + duration = date; the lazy variant stores dates in the heap and '
+             'returns a duration, the full variant returns a duration; both sides of every store, comparison, min/max, double_update and every listed argument agree', 45)
+    R = K
+    D = dims.Dims(('work', 'second', '@date'), {})
+    u = D.unit
+    W, S, DATE, RATE = u(work=1), u(second=1), u(second=1, **{'@date': 1}), u(work=1, second=-1)
+    D.fields = {R + 'Action::remains_': W, R + 'Action::cost_': W, R + 'Action::start_time_': DATE, R + 'Action::finish_time_': DATE, R + 'Action::last_update_': DATE,
+                R + 'Action::max_duration_': S, R + 'Action::last_value_': RATE, R + 'NetworkAction::latency_': S, R + 'NetworkAction::lat_current_': S}
+    D.getters = {R + 'Action::get_remains': W, R + 'Action::get_remains_no_update': W, R + 'Action::get_cost': W, R + 'Action::get_start_time': DATE, R + 'Action::get_finish_time': DATE,
+                 R + 'Action::get_last_update': DATE, R + 'Action::get_max_duration': S, R + 'Action::get_rate': RATE, R + 'Action::get_last_value': RATE, R + 'ActionHeap::top_date': DATE,
+                 'simgrid::s4u::Engine::get_clock': DATE, 'simgrid_get_clock': DATE, 'simgrid::kernel::EngineImpl::get_clock': DATE}
+    D.arg_units = {R + 'ActionHeap::update': {1: DATE}, R + 'ActionHeap::insert': {1: DATE}, R + 'Action::update_remains': {0: W}, R + 'Action::update_max_duration': {0: S},
+                   R + 'Action::set_finish_time': {0: DATE}, R + 'Action::set_last_value': {0: RATE}, R + 'Action::update_remains_lazy': {0: DATE}, R + 'Action::set_max_duration': {0: S}}
+    D.param_names = {'now': DATE, 'delta': S}
+    D.param_units = {(R + 'Action::update_remains', 'delta'): W}          # the amount of work done, not a time step
+    D.skip_vars = {(R + 'Model::next_occurring_event_full', 'value')}     # holds the rate, then the time to completion
+    D.globals_one = {'sg_precision_timing': S, 'sg_precision_workamount': D.one}
+    D.same_unit = {'double_update': (0, 1), 'double_equals': (0, 1)}
+    D.passthrough = {'std::fabs', 'fabs', 'std::abs'}
+    D.ret_units = {R + 'Model::next_occurring_event_lazy': S, R + 'Model::next_occurring_event_full': S, R + 'Model::next_occurring_event': S}
+    fns = sorted([f for f in P.fns.values() if f['q'].startswith(R) and f.get('blocks') and '/src/kernel/resource' in f['file'] and 'CpuTi' not in f['q']], key=lambda f: f['key'])
+    D.run(A, fns)
+    for r in D.decided:
+        ctx.holds('R5', '%s: %s %s %s' % (r['fn'].replace(R, ''), r['a'][:70], r['what'], r['b'][:70]), '', '[%s]' % D.show(r['da']))
+    for r in D.conflicts:
+        f = [x for x in fns if x['q'] == r['fn']][0]
+        ctx.violation('R5', '%s: %s %s %s' % (r['fn'].replace(R, ''), r['a'][:70], r['what'], r['b'][:70]), where(f, r['line']),
+                      'left side in [%s], right side in [%s]' % (D.show(r['da']), D.show(r['db'])), key='R5|%s|%s %s %s' % (r['fn'].rsplit('::', 1)[-1].split('<')[0], r['a'][:60], r['what'], r['b'][:60]))
+    ctx.count('unit sites with one side not understood (not decided)', len(D.undecided))
+    for fq, frag in ((R + 'Model::next_occurring_event_lazy', 'time_to_completion'), (R + 'Model::next_occurring_event_lazy', 'top_date'), (R + 'Model::next_occurring_event_lazy', 'return'),
+                     (R + 'Model::next_occurring_event_full', 'return'), (R + 'NetworkCm02Action::update_remains_lazy', 'delta'), (R + 'CpuAction::update_remains_lazy', 'delta')):
+        ok = any(r['fn'] == fq and (frag in r['a'] or frag in r['b'] or frag == r['what']) for r in D.decided + D.conflicts)
+        ctx.require(ok, 'R5', 'no decided unit site mentions %s in %s' % (frag, fq.replace(R, '')))
+
+    # ---- R6 ------------------------------------------------------------------------------------------------------------------------------------------
+    ctx.rule('R6', 'next_occurring_event_lazy reads the remaining work of an action only after bringing it up to date (update_remains_lazy(now), or get_remains() which does it); '
+             'the two variants agree on which actions have a deadline: max_duration compared with NO_MAX_DURATION (-1), or its sign with >= 0 / < 0 (a deadline of 0 is a deadline)', 3)
+    lz = P.fn(R + 'Model::next_occurring_event_lazy')
+
+    def tr(st, e):
+        if e.kind == 'call' and e.q.endswith('::update_remains_lazy'):
+            return ('fresh', st[1])
+        if e.kind == 'call' and e.q.endswith('::pop_front'):
+            return ('stale', st[1])         # next action of the modified set
+        if e.kind == 'call' and e.q.endswith('Action::get_remains_no_update') and st[0] != 'fresh':
+            return (st[0], st[1] or e.line)
+        return None
+    ex6 = cfg.abstract_run(A, lz, ('stale', None), tr)
+    bad6 = sorted(set(x[1] for x in (ex6['normal'] | ex6['noreturn']) if x[1]))
+    ctx.check(bool(ex6['normal']) and not bad6, 'R6', 'next_occurring_event_lazy: get_remains_no_update() only after update_remains_lazy(now) on the same action', where(lz, bad6[0] if bad6 else None),
+              'the completion date is computed from the remaining work as of the previous update: the work done since then is ignored' if bad6 else '', key='R6|next_occurring_event_lazy|fresh remains')
+    nt = 0
+    for f in sorted(P.fns.values(), key=lambda f: f['key']):
+        if not f.get('blocks') or f['q'] not in (R + 'Model::next_occurring_event_lazy', R + 'Model::next_occurring_event_full'):
+            continue
+        v = A.view(f)
+        for b in f['blocks']:
+            c = v.cond_atom(b['id'])
+            if c is None or v.is_log_branch(b['id']):
+                continue
+            for t in ex.subterms(c[0]):
+                if not (t[0] == 'bin' and t[1] in dims.ARITH_CMP):
+                    continue
+                sides = [t[2], t[3]]
+                md = [x for x in sides if (x[0] == 'call' and x[1].endswith('Action::get_max_duration')) or (x[0] == 'field' and x[2].endswith('Action::max_duration_'))]
+                lit = [x for x in sides if x[0] in ('int', 'float')]
+                if len(md) != 1 or len(lit) != 1:
+                    continue
+                nt += 1
+                litfirst = sides[0][0] in ('int', 'float')
+                op = t[1]
+                if litfirst:
+                    op = {'<': '>', '>': '<', '<=': '>=', '>=': '<=', '==': '==', '!=': '!='}[op]
+                val = lit[0][1]
+                ok = (val == -1 and op in ('==', '!=', '>', '<=')) or (val == 0 and op in ('>=', '<'))
+                line = v.elem_line(b['t']['c']) if 'c' in (b.get('t') or {}) else f['line']
+                ctx.check(ok, 'R6', '%s: %s' % (f['q'].replace(R, '').split('<')[0], ex.pretty(t)), where(f, line),
+                          'a maximal duration of 0 ("ends now") is a duration: only the sentinel -1 / negative values mean "none"' if not ok else 'sentinel test',
+                          key='R6|%s|%s' % (f['q'].rsplit('::', 1)[-1].split('<')[0], ex.pretty(t)))
+    ctx.require(nt >= 2, 'R6', 'fewer than 2 tests of max_duration against its sentinel found (%d)' % nt)
